@@ -104,32 +104,10 @@ impl TraceSlider {
     pub open spec fn in_window(&self) -> bool { self.pos() + (self.slen() - self.seen()) <= self.tlen() }
 
     // stubs: exactly the contracts proved on the real text in slider.rs
-    #[verifier::external_body]
-    pub fn set_position_and_len(&mut self, position: TracePos, subtrace_len: TraceLen) -> (r: KeeperResult<()>)
-        requires old(self).wf()                 // nothing about position / subtrace_len: they are hostile
-        ensures final(self).wf(), final(self).tlen() == old(self).tlen(),
-            r is Ok <==> (subtrace_len == 0 || position.0 + subtrace_len <= old(self).tlen()),
-            r is Ok ==> final(self).pos() == position.0 && final(self).slen() == subtrace_len && final(self).seen() == 0,
-            r is Err ==> final(self).pos() == old(self).pos() && final(self).slen() == old(self).slen()
-                && final(self).seen() == old(self).seen(),
-    { unimplemented!() }
-    #[verifier::external_body]
-    pub fn set_subtrace_len(&mut self, subtrace_len: TraceLen) -> (r: KeeperResult<()>)
-        requires old(self).wf()
-        ensures final(self).wf(), final(self).tlen() == old(self).tlen(), final(self).pos() == old(self).pos(),
-            r is Ok <==> (subtrace_len == 0 || old(self).pos() + subtrace_len <= old(self).tlen()),
-            r is Ok ==> final(self).slen() == subtrace_len && final(self).seen() == 0,
-            r is Err ==> final(self).slen() == old(self).slen() && final(self).seen() == old(self).seen(),
-    { unimplemented!() }
-    #[verifier::external_body]
-    pub fn position(&self) -> (r: TracePos)
-        ensures r.0 == self.pos()
-    { unimplemented!() }
-    #[verifier::external_body]
-    pub fn subtrace_len(&self) -> (r: TraceLen)
-        requires self.wf()
-        ensures r == self.slen() - self.seen()
-    { unimplemented!() }
+//@ stub slider :: TraceSlider::set_position_and_len
+//@ stub slider :: TraceSlider::set_subtrace_len
+//@ stub slider :: TraceSlider::position
+//@ stub slider :: TraceSlider::subtrace_len
 }
 
 // ---------------------------------------------------------------- shim: par / fold results, FSM errors
@@ -240,23 +218,7 @@ pub open spec fn restored(a: TraceSlider, s: CtxState) -> bool {
 }
 
 // stub: exactly the contract proved on the real text in slider.rs (update_ctx_states)
-#[verifier::external_body]
-pub fn update_ctx_states(state_pair: CtxStatesPair, data_keeper: &mut DataKeeper)
-    requires old(data_keeper).prev_ctx.slider.wf(), old(data_keeper).current_ctx.slider.wf()
-    ensures
-        final(data_keeper).prev_ctx.slider.wf(), final(data_keeper).current_ctx.slider.wf(),
-        final(data_keeper).prev_ctx.slider.tlen() == old(data_keeper).prev_ctx.slider.tlen(),
-        final(data_keeper).current_ctx.slider.tlen() == old(data_keeper).current_ctx.slider.tlen(),
-        // C09: a state that fits is always restored (the swallowed error can only be "does not fit")
-        state_fits(state_pair.prev_state, old(data_keeper).prev_ctx.slider) ==>
-            final(data_keeper).prev_ctx.slider.pos() == state_pair.prev_state.pos.0
-            && final(data_keeper).prev_ctx.slider.slen() == state_pair.prev_state.subtrace_len
-            && final(data_keeper).prev_ctx.slider.seen() == 0,
-        state_fits(state_pair.current_state, old(data_keeper).current_ctx.slider) ==>
-            final(data_keeper).current_ctx.slider.pos() == state_pair.current_state.pos.0
-            && final(data_keeper).current_ctx.slider.slen() == state_pair.current_state.subtrace_len
-            && final(data_keeper).current_ctx.slider.seen() == 0,
-{ unimplemented!() }
+//@ stub slider :: update_ctx_states
 
 // ================================================================ fold: state_handler.rs
 // remaining window of a slider
@@ -411,19 +373,7 @@ pub open spec fn par_len(p: ParResult, t: SubgraphType) -> int {
     match t { SubgraphType::Left => p.left_size as int, SubgraphType::Right => p.left_size + p.right_size }
 }
 // stub: exactly the contract proved on the real text in slider.rs (par compute_new_states)
-#[verifier::external_body]
-pub fn compute_new_states(data_keeper: &DataKeeper, prev_par: ParResult, current_par: ParResult, subgraph_type: SubgraphType) -> (r: FSMResult<CtxStatesPair>)
-    requires data_keeper.prev_ctx.slider.wf(), data_keeper.current_ctx.slider.wf()
-    ensures
-        r matches Ok(p) ==> p.prev_state.pos.0 == data_keeper.prev_ctx.slider.pos() + par_len(prev_par, subgraph_type)
-            && p.current_state.pos.0 == data_keeper.current_ctx.slider.pos() + par_len(current_par, subgraph_type),
-        (subgraph_type is Right
-            && data_keeper.prev_ctx.slider.in_window() && data_keeper.current_ctx.slider.in_window()
-            && par_len(prev_par, subgraph_type) <= data_keeper.prev_ctx.slider.slen() - data_keeper.prev_ctx.slider.seen()
-            && par_len(current_par, subgraph_type) <= data_keeper.current_ctx.slider.slen() - data_keeper.current_ctx.slider.seen())
-            ==> (r matches Ok(p) && state_fits(p.prev_state, data_keeper.prev_ctx.slider)
-                 && state_fits(p.current_state, data_keeper.current_ctx.slider)),
-{ unimplemented!() }
+//@ stub slider :: compute_new_states
 
 // the whole par lies inside the slider's remaining window, and the window inside the trace
 pub open spec fn par_inside(p: ParResult, s: TraceSlider) -> bool {
